@@ -20,6 +20,57 @@ Definition win_enc (v : variant) (st : estate) (m : mem) (wbase wlen : nat) (arg
 Definition is_err (r : eres) : bool := match r with EInt _ => false | _ => true end.
 Definition rebase (st : estate) (d : nat) : estate := mke (ectx st) d (escr st).
 
+(* the final length update of mpt_queue_push (MPT_ABORT when the state exceeds the storage) *)
+Definition push_finish (r : eres) (q : queue) (st : estate) : res (eres * equeue) :=
+  let l := edone st + escr st in
+  if qmax q <? l then Fault
+  else Ok (r, mkeq (set_len q l) st).
+
+(* first step when the open block straddles the storage end: it is copied to a stack buffer,
+   encoded there and written back *)
+Definition push_oob (v : variant) (q : queue) (st : estate) (arg : option (list byte))
+  : res (eres * queue * estate * nat) :=
+  let done := edone st in
+  if 256 <=? escr st then Ok (EErr BadArgument, q, st, done)
+  else
+    let mx := Nat.min (qmax q - done) 256 in
+    do ob <- (match qget q done (escr st) with Ok l => Ok l | Err _ => Ok [] | Fault => Fault end);
+    let '(r, st', buf') := enc_call v (rebase st 0) ob mx arg in
+    if is_err r then Ok (r, q, rebase st' (done + edone st'), done + edone st')
+    else
+      let set := edone st' + escr st' in
+      if qmax q <? done + set then Fault
+      else
+        let q' := set_len q (done + set) in
+        do q'' <- (match qset q' done buf' with Ok x => Ok x | Err _ => Ok q' | Fault => Fault end);
+        Ok (r, q'', rebase st' (done + edone st'), done + edone st').
+
+(* what follows the first step in the lower part *)
+Definition push_tail (v : variant) (low high len : nat) (arg : option (list byte))
+           (x : eres * queue * estate * nat) : res (eres * equeue) :=
+  let '(push, q1, st1, done1) := x in
+  if is_err push then
+    (* bad encoding attempt: align and retry on the whole storage *)
+    do q2 <- qalign q1 0;
+    let '(r, st', m) := win_enc v st1 (qbuf q2) 0 (qmax q2) arg in
+    do m <- m; push_finish r (set_buf q2 m) st'
+  else
+    let pushed := match push with EInt k => k | _ => 0 end in
+    if pushed <? len then
+      let rest := match arg with Some d => Some (skipn pushed d) | None => None end in
+      if done1 <? low then
+        let q1' := set_len q1 (edone st1 + escr st1) in
+        do q2 <- qalign q1' 0;
+        let '(r2, st', m) := win_enc v st1 (qbuf q2) 0 (qmax q2) rest in
+        do m <- m;
+        push_finish (match r2 with EInt k2 => EInt (pushed + k2) | _ => push end) (set_buf q2 m) st'
+      else
+        let '(r2, st', m) := win_enc v (rebase st1 (done1 - low)) (qbuf q1) 0 high rest in
+        do m <- m;
+        push_finish (match r2 with EInt k2 => EInt (pushed + k2) | _ => push end) (set_buf q1 m)
+                    (rebase st' (edone st' + low))
+    else push_finish push q1 st1.
+
 (* mpt_queue_push with an encoder; [arg] = Some data | None (terminate).  Result: what the C
    function returns (consumed count or error), the queue and the encoder state *)
 Definition equeue_push (v : variant) (e : equeue) (arg : option (list byte)) : res (eres * equeue) :=
@@ -28,59 +79,23 @@ Definition equeue_push (v : variant) (e : equeue) (arg : option (list byte)) : r
   let len := match arg with Some d => length d | None => 0 end in
   let arg := if len =? 0 then None else arg in
   let high := qoff q in
-  let finish (r : eres) (q : queue) (st : estate) : res (eres * equeue) :=
-    let l := edone st + escr st in
-    if qmax q <? l then Fault   (* MPT_ABORT *)
-    else Ok (r, mkeq (set_len q l) st) in
   if high =? 0 then
     let '(r, st', m) := win_enc v st (qbuf q) 0 (qmax q) arg in
-    do m <- m; finish r (set_buf q m) st'
+    do m <- m; push_finish r (set_buf q m) st'
   else
     let done := edone st in
     let low := qmax q - high in
     if low <=? done then
       let '(r, st', m) := win_enc v (rebase st (done - low)) (qbuf q) 0 high arg in
-      do m <- m; finish r (set_buf q m) (rebase st' (edone st' + low))
+      do m <- m; push_finish r (set_buf q m) (rebase st' (edone st' + low))
     else
       (* start encoding in lower part *)
-      do '(push, q1, st1, done1) <-
+      do x <-
         (if escr st <=? low - done then
            let '(r, st', m) := win_enc v st (qbuf q) high low arg in
            do m <- m; Ok (r, set_buf q m, st', edone st')
-         else if 256 <=? escr st then Ok (EErr BadArgument, q, st, done)
-         else
-           let mx := Nat.min (qmax q - done) 256 in
-           do ob <- (match qget q done (escr st) with Ok l => Ok l | Err _ => Ok [] | Fault => Fault end);
-           let '(r, st', buf') := enc_call v (rebase st 0) ob mx arg in
-           if is_err r then Ok (r, q, rebase st' (done + edone st'), done + edone st')
-           else
-             let set := edone st' + escr st' in
-             if qmax q <? done + set then Fault
-             else
-               let q' := set_len q (done + set) in
-               do q'' <- (match qset q' done buf' with Ok x => Ok x | Err _ => Ok q' | Fault => Fault end);
-               Ok (r, q'', rebase st' (done + edone st'), done + edone st'));
-      if is_err push then
-        (* bad encoding attempt: align and retry on the whole storage *)
-        do q2 <- qalign q1 0;
-        let '(r, st', m) := win_enc v st1 (qbuf q2) 0 (qmax q2) arg in
-        do m <- m; finish r (set_buf q2 m) st'
-      else
-        let pushed := match push with EInt k => k | _ => 0 end in
-        if pushed <? len then
-          let rest := match arg with Some d => Some (skipn pushed d) | None => None end in
-          if done1 <? low then
-            let q1' := set_len q1 (edone st1 + escr st1) in
-            do q2 <- qalign q1' 0;
-            let '(r2, st', m) := win_enc v st1 (qbuf q2) 0 (qmax q2) rest in
-            do m <- m;
-            finish (match r2 with EInt k2 => EInt (pushed + k2) | _ => push end) (set_buf q2 m) st'
-          else
-            let '(r2, st', m) := win_enc v (rebase st1 (done1 - low)) (qbuf q1) 0 high rest in
-            do m <- m;
-            finish (match r2 with EInt k2 => EInt (pushed + k2) | _ => push end) (set_buf q1 m)
-                   (rebase st' (edone st' + low))
-        else finish push q1 st1.
+         else push_oob v q st arg);
+      push_tail v low high len arg x.
 
 (* ---------- reader ---------- *)
 Record dqueue := mkdq { dq_q : queue; dq_st : dstate }.
